@@ -46,6 +46,7 @@ impl <N: NumericOps> ArrayLinalgSolvingInvertingProducts<N> for Array<N> {
 
         let mut arr_l = Self::identity(n)?.to_array_f64()?.to_matrix()?;
         let mut arr_u = self.to_array_f64()?.to_matrix()?;
+        let mut perm = (0..n).collect::<Vec<usize>>();
 
         for j in 0..n {
             let mut pivot_row = j;
@@ -57,6 +58,7 @@ impl <N: NumericOps> ArrayLinalgSolvingInvertingProducts<N> for Array<N> {
                 let tmp = arr_u[pivot_row].clone();
                 arr_u[pivot_row] = arr_u[j].clone();
                 arr_u[j] = tmp;
+                perm.swap(j, pivot_row);
 
                 let tmp = arr_l[pivot_row].clone();
                 for (idx, item) in tmp.iter().enumerate().take(j) {
@@ -77,6 +79,7 @@ impl <N: NumericOps> ArrayLinalgSolvingInvertingProducts<N> for Array<N> {
         let other = other.to_array_f64()?;
         let mut arr_y = Array::<f64>::zeros_like(&other)?.get_rows()?;
         let arr_b = other.to_array_f64()?.get_rows()?;
+        let arr_b = perm.iter().map(|&p| arr_b[p].clone()).collect::<Vec<Array<f64>>>();
         for i in 0..n {
             let l_tmp = arr_l[i][..i].to_vec().to_array()?;
             let y_tmp = arr_y[..i].iter().flatten().copied().collect::<Vec<f64>>().to_array()?;
